@@ -29,7 +29,7 @@ void harness(void)
 	tl_build(&tl, nd_n, TL_SLOTS);
 	verif_now_mono = nd_now; verif_now_epoch = 0; verif_hz = 1000;
 	/* an arbitrary later clock reading at which less than d has elapsed */
-	ASSUME(nd_clock >= nd_now && nd_clock - nd_now < nd_duration);
+	int early = nd_clock >= nd_now && nd_clock - nd_now < nd_duration;
 
 	int32_t rc = timerlist_add_duration(&tl, tl_fn, NULL, nd_duration, &h);
 
@@ -42,7 +42,7 @@ void harness(void)
 #endif
 		COVER(nd_duration > ((uint64_t)1 << 63));
 		POST(t != NULL && tl_count(&tl, t) == 1 && tl.size == nd_n + 1, "the added timer is pending exactly once");
-		POST(!(t->expire_time < nd_clock), "a timer is not due before its duration has elapsed");
+		POST(!early || !(t->expire_time < nd_clock), "a timer is not due before its duration has elapsed");
 #ifndef V_BEYOND
 		POST(t->expire_time - nd_now <= nd_duration && t->expire_time >= nd_now, "a timer is due once its duration has elapsed");
 #endif
